@@ -64,7 +64,10 @@ def run_variant(args):
                         return {'id': v['id'], 'status': 'bad-variant', 'detail': 'edit does not compile: %s' % e}
         res = {}
         for pid in v['props']:
-            pm = importlib.import_module('vt.props.%s' % pid.lower())
+            try:
+                pm = importlib.import_module('vt.props.%s' % pid.lower())
+            except ModuleNotFoundError:
+                continue
             try:
                 repo = Repo(dst)
                 rep = Report(pid, 'quick', repo)
